@@ -109,16 +109,18 @@ CHECKS = {
              "via extraction + implementation-only oracle load_kb_from_file = parse_rule each"),
 
  "C01": dict(
-   text="PARTIAL proof. The reference is a compositional trace semantics written in Coq (Spec/SpecSolve.v: events and "
-        "terminals; no nodes, flags or resumption); the full statement - draining a query's node yields the reference answers, "
-        "in order and multiplicity, equal up to renaming of unbound variables, and the reference output - is the Definition "
-        "refines_reference (Spec/Refine.v, = C01_full) and is NOT yet proved. Machine-checked for all programs: the "
-        "`$Var = value` format of solve/solve_all, that an answer sequence ends for good (C05), that calls are opaque to cuts. "
-        "What decides the property on every run: the extracted reference search is run as an oracle against the "
-        "implementation on every generated history (each request's answer compared up to renaming of unbound variables), and "
-        "the executable model of the solver (Model/Solve.v, the object of the theorems) is compared with the implementation on "
-        "full substitution sets, variable-id counter and output.", ref="7/C01",
-   technique="Coq reference semantics extracted as oracle vs implementation + model-vs-implementation correspondence; Coq proofs of the parts listed (refinement theorem stated, not yet proved)"),
+   text="PROVED for cut-free programs, PARTIAL beyond: for every knowledge base whose clause bodies are calls, conjunctions, "
+        "disjunctions and built-ins other than `!` (no not/time), every query, world and fuel, draining the query's node yields "
+        "exactly the answers of the reference depth-first search (Spec/SpecLazy.v, continuation-passing, no nodes/flags/resumption): "
+        "same order, same multiplicity, syntactically equal substitution sets, same variable-id counter and output "
+        "(C01_refines = Proofs/RefineDen.refines_lazy, by a refinement mapping `den` from node states to the remaining reference "
+        "search, den_fresh + den_step). For programs with cut / not the reference is the trace semantics Spec/SpecSolve.v and the "
+        "statement (refines_reference, Spec/Refine.v) is NOT yet proved; proved there: cut commitment (C02), not (C03), "
+        "exhaustion (C05), answer format. What decides the property on every run for all programs: both reference searches are "
+        "extracted and run as oracles against the implementation on every generated history (SpecLazy: exact substitution sets; "
+        "SpecSolve: answers up to renaming of unbound variables), and the executable solver model (the object of the theorems) is "
+        "compared with the implementation on full substitution sets, variable-id counter and output.", ref="7/C01",
+   technique="Coq refinement proof (solver model refines reference depth-first search, cut-free programs) + extracted Coq reference semantics as oracles vs implementation + model-vs-implementation correspondence"),
  "C02": dict(
    text="Machine-checked on the model of the solver, for all programs, goals and worlds: a node that reports a cut is "
         "committed (no_backtracking set) - this covers the cut, every enclosing conjunction/disjunction node and the call that "
@@ -138,13 +140,15 @@ CHECKS = {
         "model-vs-implementation correspondence.", ref="7/C03",
    technique="Coq proof about the not node and the reference's not (Properties/C03.v) + extracted reference semantics as oracle + model-vs-implementation correspondence"),
  "C04": dict(
-   text="Machine-checked: print's formatting for all format strings and argument lists (pieces between %s markers interleaved "
-        "with the arguments, surplus arguments appended, surplus markers dropped) and that requests on an exhausted node write "
-        "nothing. Order and multiplicity of output relative to the reference search (out = output_of events in "
-        "refines_reference) is stated, not yet proved; it is decided on every run by comparing, per request, the text the "
-        "implementation writes with what the extracted reference search writes between the corresponding answers, and by "
-        "model-vs-implementation correspondence on the output of every operation.", ref="7/C04",
-   technique="Coq proof of print formatting (Properties/C04.v) + extracted reference semantics as per-request output oracle + model-vs-implementation correspondence"),
+   text="Machine-checked: (1) for cut-free programs (calls, conjunctions, disjunctions, built-ins incl. print/print_list/nl) the "
+        "complete output of draining a query equals the output of the reference depth-first search, which writes exactly when it "
+        "executes a print goal - order and multiplicity for every program, query and fuel (C04_output_of_cutfree_search, corollary "
+        "of the refinement theorem); (2) print's formatting for all format strings and argument lists; (3) requests on an "
+        "exhausted node write nothing. For programs with cut / not the order/multiplicity statement (refines_reference) is stated, "
+        "not yet proved; it is decided on every run by comparing, per request, the text the implementation writes with what the "
+        "extracted reference searches write between the corresponding answers, and by model-vs-implementation correspondence on "
+        "the output of every operation.", ref="7/C04",
+   technique="Coq refinement proof (output of cut-free search) and proof of print formatting (Properties/C04.v) + extracted reference semantics as per-request output oracle + model-vs-implementation correspondence"),
  "C05": dict(
    text="Machine-checked for ALL node kinds (calls, conjunctions, disjunctions, not, time, built-ins, with or without cut flags), "
         "all programs, worlds and fuel: a request that finds no answer leaves the node in a `dead` state; a dead node answers "
